@@ -18,6 +18,7 @@ pub enum Op {
     Send(Id),
     TrySend(Id),
     SendBatch(Vec<Id>),
+    TrySendBatch(Vec<Id>),
     SendAsync(Id),
     DropTx,
     // channel receivers
@@ -71,6 +72,8 @@ pub enum Res {
     Sent(Id),
     BatchOk(usize),
     BatchErr { sent: usize, unsent: Vec<Id> },
+    /// try_send_batch stopped early: Full (true) or Closed (false)
+    TryBatchErr { sent: usize, unsent: Vec<Id>, full: bool },
     Val(Id),
     /// batch receive
     Vals(Vec<Id>),
